@@ -59,6 +59,9 @@ static int vnadata_load_common(vnadata_internal_t *vdip,
 {
     vnadata_t *vdp = &vdip->vdi_vd;
     int filename_ports = -1;
+    const vnadata_filetype_t saved_filetype = vdip->vdi_filetype;
+    const int saved_fprecision = vdip->vdi_fprecision;
+    const int saved_dprecision = vdip->vdi_dprecision;
 
     /*
      * Determine the filetype and call the appropriate parser.  If the
@@ -86,7 +89,7 @@ static int vnadata_load_common(vnadata_internal_t *vdip,
 	 */
 	if (_vnadata_load_touchstone(vdip, fp, filename) == -1) {
 	    discard_partial_load(vdip);
-	    return -1;
+	    goto error;
 	}
 	if (filename_ports != -1 && filename_ports != 2 &&
 		filename_ports != vdp->vd_columns) {
@@ -102,7 +105,7 @@ static int vnadata_load_common(vnadata_internal_t *vdip,
 	 */
 	if (_vnadata_load_npd(vdip, fp, filename) == -1) {
 	    discard_partial_load(vdip);
-	    return -1;
+	    goto error;
 	}
 	break;
 
@@ -111,6 +114,16 @@ static int vnadata_load_common(vnadata_internal_t *vdip,
 	/*NOTREACHED*/
     }
     return 0;
+
+error:
+    /*
+     * The file type and the precisions the rejected file asked for are
+     * part of what was read: the settings are those from before the call.
+     */
+    vdip->vdi_filetype = saved_filetype;
+    vdip->vdi_fprecision = saved_fprecision;
+    vdip->vdi_dprecision = saved_dprecision;
+    return -1;
 }
 
 /*
